@@ -77,7 +77,7 @@ let () =
           else if hs_tok cls w.HsDebugFull.fd_hs <> proto ^ " " ^ exts then Diff "model handshake differs"
           else if List.concat w.HsDebugFull.fd_conn_out <> written then Diff "model request differs"
           else if opt_tok w.HsDebugFull.fd_on_request <> obs_tok nreq gotreq then Diff "model OnRequest differs"
-          else if opt_tok w.HsDebugFull.fd_on_response <> obs_tok nresp gotresp then Diff ("model OnResponse differs: " ^ opt_tok w.HsDebugFull.fd_on_response)
+          else if opt_tok w.HsDebugFull.fd_on_response <> obs_tok nresp gotresp then Diff "model OnResponse differs"
           else if setresp && w.HsDebugFull.fd_captured <> cap then Diff "model captured bytes differ"
           else if (match w.HsDebugFull.fd_br with None -> "nil" | Some x -> hex_of_bytes x) <> br then Diff "model returned buffer differs"
           else if List.concat w.HsDebugFull.fd_conn <> bytes_of_hex crest then Diff "model conn remainder differs"
